@@ -30,9 +30,20 @@ def grid():
     computed = [("(/ 1 -2)", Fraction(-1, 2)), ("(+ 1/2 1/2)", Fraction(1)), ("(- 1/2)", Fraction(-1, 2)), ("(/ 6 4)", Fraction(3, 2)),
                 ("(/ -6 -4)", Fraction(3, 2)), ("(* 2/3 3/2)", Fraction(1)), ("(/ 7 -7)", Fraction(-1)), ("(- 1/3 1/3)", Fraction(0)),
                 ("(/ 3 -6)", Fraction(-1, 2)), ("(* -1 1/2)", Fraction(-1, 2)), ("(+ 1/4 1/4)", Fraction(1, 2)), ("(/ -4 6)", Fraction(-2, 3)),
-                ("(abs -1/2)", Fraction(1, 2)), ("(/ 1 3)", Fraction(1, 3))]
+                ("(abs -1/2)", Fraction(1, 2)), ("(/ 1 3)", Fraction(1, 3)),
+                # integers and ratios that come out of max / min / abs / floor (they must be the same numbers as the literals)
+                ("(max 4 1/2)", Fraction(4)), ("(min -3 1/2)", Fraction(-3)), ("(max 7/2 2 3)", Fraction(7, 2)), ("(abs -7)", Fraction(7)), ("(floor 7/2)", Fraction(3)),
+                ("(min 1/2 3/4)", Fraction(1, 2))]
     for src, v in computed:
         g.append((src, v, {"computed": True}))
+    # ratios and their own binary32 images (and the neighbours one ulp away): exact vs inexact comparison at a tie
+    for a, b in [(7, 13), (13, 11), (31, 7), (5, 3), (-14, 13)]:
+        g.append(("%d/%d" % (a, b), Fraction(a, b), {"ratio_literal": True}))
+        bits = f32_bits(a / b)
+        g.append(("(/ %d.0 %d)" % (a, b), Real(bits), {"computed": True}))
+        for db in (1, -1):
+            t = "%.9g" % bits_f32(bits + db)
+            g.append((t, Real(f32_bits(float(t))), {"bits": sorted(lit_real(t)), "real_literal": True}))
     reals = ["0.0", "-0.0", "0.5", "1.5", "-2.5", "0.1", "16777216.0", "16777218.0", "1e10", "1e-7", "3.4e38", "1.0", "-1.0", "2.0",
              "0.3", "1e-45", "-0.5", "3.0", "7.0", "2147483648.0", "0.333333343"]
     for t in reals:
